@@ -1,8 +1,9 @@
 import RtVerif.Model.C09
 /-
   C09 — helper lemmas: context lookups under pushes, the accessors' hit/miss behaviour, which
-  effects each accessor can produce, and the simulation invariant `Agree` between the promises of
-  the Spec and the contexts of the model.
+  effects each accessor can produce, the simulation invariant `Agree` between the promises of
+  the Spec and the contexts of the model, and (second half) its converse `Sound` with the validity
+  of the shared state `StOk`, from which "derived from the request alone" follows.
 -/
 namespace RtVerif.C09
 open RtVerif Bytes
@@ -851,32 +852,6 @@ theorem getD_append_gt {α : Type} (l : List α) (a d : α) (k : Nat) (h : l.len
 theorem getD_len_le {α : Type} (l : List α) (d : α) (k : Nat) (h : l.length ≤ k) : l.getD k d = d := by
   simp [List.getD, List.getElem?_eq_none h]
 
-theorem specGo_runProg (env : Env) : ∀ (prog : List Instr) (st : State) (vals : List Ctx) (ps : List Promise),
-    vals.length = ps.length → (∀ k, Agree (ps.getD k {}) (vals.getD k [])) →
-    specGo prog (runProg env prog st vals) ps = true := by
-  intro prog
-  induction prog with
-  | nil => intro st vals ps _ _; rfl
-  | cons i is ih =>
-    intro st vals ps hlen hag
-    simp only [runProg, specGo, Bool.and_eq_true]
-    rw [← hlen]
-    have hk := hag (srcIdx vals.length i.back)
-    refine ⟨keeps_model env st _ i.op _ hk, ?_⟩
-    apply ih
-    · simp [hlen]
-    · intro k
-      rcases Nat.lt_trichotomy k vals.length with hlt | heq | hgt
-      · rw [getD_append_lt _ _ _ _ (hlen ▸ hlt), getD_append_lt _ _ _ _ hlt]; exact hag k
-      · subst heq
-        rw [getD_append_len]
-        have : (ps ++ [after (ps.getD (srcIdx vals.length i.back) {}) i.op (stepOp env st (vals.getD (srcIdx vals.length i.back) []) i.op).2.2]).getD vals.length {} =
-            after (ps.getD (srcIdx vals.length i.back) {}) i.op (stepOp env st (vals.getD (srcIdx vals.length i.back) []) i.op).2.2 := by
-          rw [hlen]; exact getD_append_len _ _ _
-        rw [this]
-        exact agree_after env st _ i.op _ hk
-      · rw [getD_append_gt _ _ _ _ (hlen ▸ hgt), getD_append_gt _ _ _ _ hgt]; exact agree_init
-
 theorem agree_empty (c : Ctx) : Agree {} c :=
   ⟨AgNone1 c, AgCT_none c, AgFmt_none c, AgBound_none c, AgAuth_none c, by intro h; simp at h⟩
 
@@ -1105,5 +1080,983 @@ theorem runProg_threaded (env : Env) : ∀ (ops : List Op) (st : State) (vs : Li
       simp [srcIdx, List.getD]
     simp only [List.map_cons, runProg, runThread, hc]
     rw [ih]
+
+/-! ### "derived from the request alone": authentication ignores `route.Authenticator` -/
+
+theorem raAuth_ref (env : Env) : ∀ (schemes : List Bytes) (last : Option Bytes) (effs : List Eff),
+    ((raAuth env schemes last effs).applies, (raAuth env schemes last effs).princ, (raAuth env schemes last effs).err)
+      = refAlt env schemes last ∧
+    (raAuth env schemes last effs).sets = (raAuth env schemes last effs).applies := by
+  intro schemes
+  induction schemes with
+  | nil => intro last effs; simp [raAuth, refAlt]
+  | cons s rest ih =>
+    intro last effs
+    unfold raAuth refAlt
+    split
+    · simp
+    · split
+      · simp
+      · exact ih _ _
+
+/-- what `Authorize` makes of the outcome of `RouteAuthenticators.Authenticate` -/
+def rasOutcome (a : RasOut) : Res2 × List Bytes :=
+  if !a.applies || a.err.isSome then (.authErr (a.err.getD 401), [])
+  else match a.princ with
+    | some u => (.princ u, (a.cur.map (·.scopes)).getD [])
+    | none => (.anon, (a.cur.map (·.scopes)).getD [])
+
+theorem rasAuth_ref (env : Env) : ∀ (alts : List AuthAlt) (le : Option Nat) (anon cur : Option AuthAlt) (al : Bool)
+    (effs : List Eff),
+    rasOutcome (rasAuth env alts le anon cur al effs) = refAlts env alts le anon ∧
+    ((rasAuth env alts le anon cur al effs).applies = true → (rasAuth env alts le anon cur al effs).err = none →
+      (rasAuth env alts le anon cur al effs).cur.isSome = true ∧
+      ((rasAuth env alts le anon cur al effs).princ = none → (anon.isSome || allowsAnon alts) = true)) := by
+  intro alts
+  induction alts with
+  | nil =>
+    intro le anon cur al effs
+    unfold rasAuth refAlts
+    cases anon <;> cases le <;> simp [rasOutcome]
+  | cons ra rest ih =>
+    intro le anon cur al effs
+    unfold rasAuth refAlts
+    simp only
+    by_cases hanon : ra.anon = true
+    · simp only [hanon, if_true]
+      obtain ⟨h1, h2⟩ := ih le (some ra) (if (al && loopVarShared) = true then some ra else cur) al effs
+      refine ⟨h1, fun ha he => ⟨(h2 ha he).1, fun _ => ?_⟩⟩
+      simp [allowsAnon, hanon]
+    · simp only [hanon, Bool.false_eq_true, if_false]
+      obtain ⟨hr, hs⟩ := raAuth_ref env ra.schemes none []
+      generalize raAuth env ra.schemes none [] = o at hr hs
+      rw [← hr]
+      obtain ⟨oa, op, oe, oeff, os⟩ := o
+      simp only at hs ⊢
+      subst hs
+      have step : ∀ (le' : Option Nat) (cur' : Option AuthAlt) (al' : Bool),
+          rasOutcome (rasAuth env rest le' anon cur' al' (effs ++ oeff)) = refAlts env rest le' anon ∧
+          ((rasAuth env rest le' anon cur' al' (effs ++ oeff)).applies = true →
+            (rasAuth env rest le' anon cur' al' (effs ++ oeff)).err = none →
+            (rasAuth env rest le' anon cur' al' (effs ++ oeff)).cur.isSome = true ∧
+            ((rasAuth env rest le' anon cur' al' (effs ++ oeff)).princ = none →
+              (anon.isSome || allowsAnon (ra :: rest)) = true)) := by
+        intro le' cur' al'
+        obtain ⟨h1, h2⟩ := ih le' anon cur' al' (effs ++ oeff)
+        refine ⟨h1, fun ha he => ⟨(h2 ha he).1, fun hp => ?_⟩⟩
+        have := (h2 ha he).2 hp
+        simp only [allowsAnon, List.any_cons, Bool.or_eq_true] at this ⊢
+        rcases this with h | h
+        · exact Or.inl h
+        · exact Or.inr (Or.inr h)
+      cases os with
+      | false =>
+        simp only [Bool.not_false, Bool.true_or, if_true]
+        exact step _ _ _
+      | true =>
+        cases oe with
+        | some e =>
+          simp only [Bool.not_true, Option.isSome_some, Bool.true_or, Bool.or_true, if_true]
+          exact step _ _ _
+        | none =>
+          cases op with
+          | none =>
+            simp only [Bool.not_true, Option.isSome_none, Option.isNone_none, Bool.or_true, if_true]
+            exact step _ _ _
+          | some u =>
+            simp [rasOutcome]
+
+theorem value_scopes_stored (sc : List Bytes) (v : Val) (c : Ctx) :
+    value ((kScopes, Val.scopes sc) :: (kPrinc, v) :: c) kScopes = .scopes sc := value_push_eq _ _ _
+
+/-- an evaluated `Authorize` yields the reference's result and stores the reference's scopes,
+whatever `route.Authenticator` was before -/
+theorem authorizeMiss_ref (env : Env) (st : State) (c : Ctx) (rid : Nat) (rc : RouteCfg) :
+    res2OfAuth (authorizeMiss env st c rid rc).res = (refAuthorize env rc).1 ∧
+    (authenticated (res2OfAuth (authorizeMiss env st c rid rc).res) = true →
+      value ((authorizeMiss env st c rid rc).ret.held c) kScopes = .scopes (refAuthorize env rc).2) := by
+  obtain ⟨h1, h2⟩ := rasAuth_ref env rc.alts none none ((st.routes[rid]?).bind (·.authn)) false []
+  unfold authorizeMiss refAuthorize
+  simp only
+  rw [← h1]
+  generalize rasAuth env rc.alts none none ((st.routes[rid]?).bind (·.authn)) false [] = a at h1 h2 ⊢
+  obtain ⟨aa, ap, ae, aeff, acur⟩ := a
+  simp only at h2 ⊢
+  cases aa with
+  | false => simp [rasOutcome, isAuthErr, res2OfAuth, authenticated]
+  | true =>
+    cases ae with
+    | some e => simp [rasOutcome, isAuthErr, res2OfAuth, authenticated]
+    | none =>
+      obtain ⟨hc, hp⟩ := h2 rfl rfl
+      obtain ⟨alt, rfl⟩ := Option.isSome_iff_exists.mp hc
+      cases ap with
+      | none =>
+        have ha : allowsAnon rc.alts = true := by simpa using hp rfl
+        cases hz : rc.hasAuthorizer <;> cases hy : env.authz <;>
+          simp [rasOutcome, isAuthErr, res2OfAuth, authenticated, ha, authStore, princVal, Ret.held, value_scopes_stored]
+      | some u =>
+        cases hz : rc.hasAuthorizer <;> cases hy : env.authz <;>
+          simp [rasOutcome, isAuthErr, res2OfAuth, authenticated, authStore, princVal, Ret.held, value_scopes_stored]
+
+/-! ### validity of request values and of the shared state w.r.t. the request's stage functions -/
+
+/-- every `route.Consumer` set so far is the one the request's content type selects -/
+def StOk (env : Env) (st : State) : Prop :=
+  ∀ i : Nat, (st.routes[i]?).bind (fun o : RouteObj => o.consumer) = none ∨
+    (st.routes[i]?).bind (fun o : RouteObj => o.consumer) = refConsumer env
+
+/-- what is memoised in a request value is derived from the request (route, content type), or is
+promised to its holder (format, principal, binding) — the converse of `Agree` -/
+structure Sound (env : Env) (n : Nat) (p : Promise) (c : Ctx) : Prop where
+  route : ∀ i rc, memoRoute c = some (i, rc) → env.lookup = some rc ∧ i < n
+  ct : ∀ x, memoCT c = some x → env.parseCT = .ok x
+  fmt : ∀ f, memoFmt c = some f → p.fmt = some (.fmt f)
+  princ : value c kPrinc = .nil ∨ ∃ u, value c kPrinc = .princ u ∧ p.auth = some (.princ u)
+  bound : ∀ b, memoBound c = some b → p.bound.isSome = true
+
+theorem sound_init (env : Env) (n : Nat) : Sound env n {} [] := by
+  constructor
+  · intro i rc h; simp [memoRoute, value] at h
+  · intro x h; simp [memoCT, value] at h
+  · intro f h; simp [memoFmt, value] at h
+  · exact Or.inl rfl
+  · intro b h; simp [memoBound, value] at h
+
+theorem Sound.mono {env : Env} {n m : Nat} {p : Promise} {c : Ctx} (h : Sound env n p c) (hnm : n ≤ m) :
+    Sound env m p c :=
+  ⟨fun i rc hm => ⟨(h.route i rc hm).1, Nat.lt_of_lt_of_le (h.route i rc hm).2 hnm⟩, h.ct, h.fmt, h.princ, h.bound⟩
+
+theorem stOk_init (env : Env) (b : Nat) : StOk env ⟨[], b⟩ := by intro i; left; simp
+
+/-! projections of `after` -/
+
+theorem after_fmt (p : Promise) (op : Op) (o : Obs) :
+    (after p op o).fmt = match op with
+      | .responseFormat _ => if memoisable2 o.res2 then some o.res2 else p.fmt
+      | _ => p.fmt := by
+  unfold after afterReset afterStage afterRoute setStage
+  cases op <;> (repeat' split) <;> simp_all
+
+theorem after_auth (p : Promise) (op : Op) (o : Obs) :
+    (after p op o).auth = match op with
+      | .resetAuth => none
+      | .authorize => if memoisable2 o.res2 then some o.res2 else p.auth
+      | _ => p.auth := by
+  unfold after afterReset afterStage afterRoute setStage
+  cases op <;> (repeat' split) <;> simp_all
+
+theorem after_bound (p : Promise) (op : Op) (o : Obs) :
+    (after p op o).bound = match op with
+      | .bindAndValidate => if memoisable2 o.res2 then some o.res2 else p.bound
+      | _ => p.bound := by
+  unfold after afterReset afterStage afterRoute setStage
+  cases op <;> (repeat' split) <;> simp_all
+
+/-! ### the route part -/
+
+theorem routeInfo_cases' (env : Env) (st : State) (c : Ctx) :
+    (∃ x, memoRoute c = some x ∧ routeInfo env st c = ⟨st, .same, some x, []⟩) ∨
+    (memoRoute c = none ∧ ∃ rc, env.lookup = some rc ∧ routeInfo env st c =
+        ⟨{ st with routes := st.routes ++ [{}] }, .new ((kRoute, .route st.routes.length rc) :: c),
+          some (st.routes.length, rc), [.lookup]⟩) ∨
+    (memoRoute c = none ∧ env.lookup = none ∧ routeInfo env st c = ⟨st, .nil, none, [.lookup]⟩) := by
+  unfold routeInfo
+  cases hm : memoRoute c with
+  | some x => exact Or.inl ⟨x, rfl, rfl⟩
+  | none =>
+    cases hl : env.lookup with
+    | some rc => exact Or.inr (Or.inl ⟨rfl, rc, rfl, rfl⟩)
+    | none => exact Or.inr (Or.inr ⟨rfl, rfl, rfl⟩)
+
+theorem stOk_append (env : Env) (st : State) (h : StOk env st) :
+    StOk env { st with routes := st.routes ++ [{}] } := by
+  intro i
+  rcases Nat.lt_trichotomy i st.routes.length with hlt | heq | hgt
+  · simpa [List.getElem?_append_left hlt] using h i
+  · subst heq; left; simp
+  · left
+    have : (st.routes ++ [({} : RouteObj)]).length ≤ i := by simp; omega
+    simp [List.getElem?_eq_none this]
+
+/-- the state after the implicit `RouteInfo` -/
+theorem routeInfo_state (env : Env) (st : State) (c : Ctx) (h : StOk env st) :
+    StOk env (routeInfo env st c).st ∧ st.routes.length ≤ (routeInfo env st c).st.routes.length ∧
+    (routeInfo env st c).st.bodyLeft = st.bodyLeft := by
+  rcases routeInfo_cases' env st c with ⟨x, _, he⟩ | ⟨_, rc, _, he⟩ | ⟨_, _, he⟩
+  · rw [he]; exact ⟨h, Nat.le_refl _, rfl⟩
+  · rw [he]; exact ⟨stOk_append env st h, by simp, rfl⟩
+  · rw [he]; exact ⟨h, Nat.le_refl _, rfl⟩
+
+/-- the route an operation works with is the one the router finds for the request -/
+theorem routeInfo_route (env : Env) (st : State) (c : Ctx) (p : Promise) (h : Sound env st.routes.length p c) :
+    (routeInfo env st c).route.map (·.2) = env.lookup ∧
+    ∀ i rc, (routeInfo env st c).route = some (i, rc) → i < (routeInfo env st c).st.routes.length := by
+  rcases routeInfo_cases' env st c with ⟨x, hm, he⟩ | ⟨_, rc, hl, he⟩ | ⟨_, hl, he⟩
+  · rw [he]
+    obtain ⟨i, rc⟩ := x
+    exact ⟨by simp [(h.route i rc hm).1], fun i' rc' e => by simp at e; exact e.1 ▸ (h.route i rc hm).2⟩
+  · rw [he]; exact ⟨by simp [hl], fun i' rc' e => by simp at e; simp [← e.1]⟩
+  · rw [he]; exact ⟨by simp [hl], fun i' rc' e => by simp at e⟩
+
+theorem afterRoute_fmt (p : Promise) (r : Res1) : (afterRoute p r).fmt = p.fmt := by
+  unfold afterRoute; split <;> rfl
+theorem afterRoute_auth (p : Promise) (r : Res1) : (afterRoute p r).auth = p.auth := by
+  unfold afterRoute; split <;> rfl
+theorem afterRoute_bound (p : Promise) (r : Res1) : (afterRoute p r).bound = p.bound := by
+  unfold afterRoute; split <;> rfl
+
+/-- `Sound` only looks at the format, authentication and binding promises -/
+theorem Sound.congr {env : Env} {n : Nat} {p q : Promise} {c : Ctx} (h : Sound env n p c)
+    (hf : q.fmt = p.fmt) (ha : q.auth = p.auth) (hb : q.bound = p.bound) : Sound env n q c :=
+  ⟨h.route, h.ct, by rw [hf]; exact h.fmt, by rw [ha]; exact h.princ, by rw [hb]; exact h.bound⟩
+
+theorem Sound.push {env : Env} {n : Nat} {p : Promise} {c : Ctx} {k : Nat} (v : Val) (h : Sound env n p c)
+    (h1 : k ≠ kRoute) (h2 : k ≠ kCT) (h3 : k ≠ kFmt) (h4 : k ≠ kPrinc) (h5 : k ≠ kBound) :
+    Sound env n p ((k, v) :: c) := by
+  constructor
+  · intro i rc hm; rw [memoRoute_push v c h1] at hm; exact h.route i rc hm
+  · intro x hm; rw [memoCT_push v c h2] at hm; exact h.ct x hm
+  · intro f hm; rw [memoFmt_push v c h3] at hm; exact h.fmt f hm
+  · rw [value_push_ne v c h4]; exact h.princ
+  · intro b hm; rw [memoBound_push v c h5] at hm; exact h.bound b hm
+
+theorem sound_route_held (env : Env) (st : State) (c : Ctx) (p : Promise) (h : Sound env st.routes.length p c) :
+    Sound env (routeInfo env st c).st.routes.length p ((routeInfo env st c).ret.held c) := by
+  rcases routeInfo_cases' env st c with ⟨x, _, he⟩ | ⟨hm, rc, hl, he⟩ | ⟨_, _, he⟩
+  · rw [he]; exact h
+  · rw [he]
+    simp only [Ret.held, List.length_append, List.length_singleton]
+    have h' := h.mono (Nat.le_succ st.routes.length)
+    constructor
+    · intro i rc' hm'
+      rw [memoRoute_set] at hm'
+      simp at hm'
+      exact ⟨by rw [hl, hm'.2], by omega⟩
+    · intro x hx; rw [memoCT_push _ _ ne_Route_CT] at hx; exact h.ct x hx
+    · intro f hx; rw [memoFmt_push _ _ ne_Route_Fmt] at hx; exact h.fmt f hx
+    · rw [value_push_ne _ _ ne_Route_Princ]; exact h.princ
+    · intro b hx; rw [memoBound_push _ _ ne_Route_Bound] at hx; exact h.bound b hx
+  · rw [he]; exact h
+
+/-! ### binding -/
+
+theorem contentType_ref (env : Env) (c : Ctx) (hct : ∀ x, memoCT c = some x → env.parseCT = .ok x) :
+    (contentType env c).2 = env.parseCT ∧ memoFmt ((contentType env c).1.held c) = memoFmt c := by
+  unfold contentType
+  cases hm : memoCT c with
+  | some x => exact ⟨(hct x hm).symm, rfl⟩
+  | none =>
+    cases hp : env.parseCT with
+    | ok x => exact ⟨rfl, memoFmt_push _ _ ne_CT_Fmt⟩
+    | error e => exact ⟨rfl, rfl⟩
+
+theorem consumerAt_set_eq (st : State) (rid : Nat) (k : Bytes) (h : rid < st.routes.length) :
+    ((setConsumer st rid k).routes[rid]?).bind (fun o : RouteObj => o.consumer) = some k := by
+  simp [setConsumer, List.getElem?_modify_eq, List.getElem?_eq_getElem h]
+
+theorem consumerAt_set_ne (st : State) (rid i : Nat) (k : Bytes) (h : rid ≠ i) :
+    ((setConsumer st rid k).routes[i]?).bind (fun o : RouteObj => o.consumer) =
+      (st.routes[i]?).bind (fun o : RouteObj => o.consumer) := by
+  simp [setConsumer, List.getElem?_modify_ne _ _ h]
+
+theorem stOk_setConsumer (env : Env) (st : State) (rid : Nat) (k : Bytes) (h : StOk env st)
+    (hk : refConsumer env = some k) : StOk env (setConsumer st rid k) := by
+  intro i
+  by_cases hi : rid = i
+  · subst hi
+    by_cases hl : rid < st.routes.length
+    · right; rw [consumerAt_set_eq st rid k hl, hk]
+    · left
+      have : (setConsumer st rid k).routes.length ≤ rid := by simp [setConsumer, List.length_modify]; omega
+      simp [List.getElem?_eq_none this]
+  · rw [consumerAt_set_ne st rid i k hi]; exact h i
+
+theorem vContentType_ref (env : Env) (st : State) (c : Ctx) (rid : Nat) (hst : StOk env st)
+    (hct : ∀ x, memoCT c = some x → env.parseCT = .ok x) (hrid : rid < st.routes.length) :
+    (vContentType env st c rid).errs = refCTErrs env ∧ StOk env (vContentType env st c rid).st ∧
+    (vContentType env st c rid).st.routes.length = st.routes.length ∧
+    (vContentType env st c rid).st.bodyLeft = st.bodyLeft ∧
+    memoFmt (vContentType env st c rid).c = memoFmt c ∧
+    ((vContentType env st c rid).errs = [] → env.hasBody = true →
+      ((vContentType env st c rid).st.routes[rid]?).bind (fun o : RouteObj => o.consumer) = refConsumer env) := by
+  obtain ⟨hres, hfmt⟩ := contentType_ref env c hct
+  unfold vContentType refCTErrs
+  cases hb : env.hasBody with
+  | false => simp [hst]
+  | true =>
+    simp only [if_true]
+    generalize contentType env c = r at hres hfmt
+    obtain ⟨ret, res⟩ := r
+    simp only at hres hfmt
+    subst hres
+    cases hp : env.parseCT with
+    | error e => simp [hst]
+    | ok x =>
+      simp only
+      have hrc : refConsumer env = if x.1.isEmpty then none else env.consumerFor x.1 := by simp [refConsumer, hp]
+      by_cases hx : x.1.isEmpty = true
+      · simp only [hx, Bool.not_true, Bool.false_and, Bool.false_eq_true, if_false, List.append_nil]
+        refine ⟨trivial, hst, trivial, trivial, hfmt, fun _ _ => ?_⟩
+        rcases hst rid with h | h
+        · rw [h, hrc]; simp [hx]
+        · exact h
+      · simp only [hx, Bool.not_false, Bool.true_and]
+        simp only [hx, if_false, Bool.false_eq_true] at hrc
+        rcases hst rid with h | h
+        · rw [h]
+          simp only [Option.isNone_none, if_true]
+          cases hk : env.consumerFor x.1 with
+          | none =>
+            simp only [Option.isNone_none, if_true]
+            refine ⟨trivial, hst, trivial, trivial, hfmt, fun he _ => ?_⟩
+            simp at he
+          | some k =>
+            simp only [Option.isNone_some, Bool.false_eq_true, if_false, List.append_nil]
+            rw [hk] at hrc
+            exact ⟨trivial, stOk_setConsumer env st rid k hst hrc, by simp [setConsumer, List.length_modify], rfl, hfmt,
+              fun _ _ => by rw [consumerAt_set_eq st rid k hrid, hrc]⟩
+        · rw [h, hrc]
+          cases hk : env.consumerFor x.1 with
+          | none =>
+            simp only [Option.isNone_none, if_true]
+            refine ⟨trivial, hst, trivial, trivial, hfmt, fun he _ => ?_⟩
+            simp at he
+          | some k =>
+            simp only [Option.isNone_some, Bool.false_eq_true, if_false, List.append_nil]
+            exact ⟨trivial, hst, trivial, trivial, hfmt, fun _ _ => by rw [h, hrc, hk]⟩
+
+theorem responseFormat_ref (env : Env) (c : Ctx) (p : Promise) (rc : RouteCfg) (hag : AgFmt p.fmt c)
+    (hs : ∀ f, memoFmt c = some f → p.fmt = some (.fmt f)) :
+    (responseFormat env c rc.produces).2 = refFmt env p rc := by
+  unfold responseFormat refFmt
+  cases hm : memoFmt c with
+  | some f => simp [hs f hm]
+  | none =>
+    rw [hag.memo_none hm]
+    simp only
+    split <;> rfl
+
+theorem responseFormat_congr (env : Env) (c1 c2 : Ctx) (o : List Bytes) (h : memoFmt c1 = memoFmt c2) :
+    (responseFormat env c1 o).2 = (responseFormat env c2 o).2 := by
+  unfold responseFormat
+  rw [h]
+  cases memoFmt c2 with
+  | some f => rfl
+  | none => simp only; split <;> rfl
+
+/-- an evaluated binding yields the reference's outcome for the bytes of the body still unread,
+whatever `route.Consumer` was before; it empties the body exactly when it calls the consumer -/
+theorem validateRequest_ref (env : Env) (st : State) (c : Ctx) (rid : Nat) (rc : RouteCfg) (p : Promise)
+    (hst : StOk env st) (hct : ∀ x, memoCT c = some x → env.parseCT = .ok x) (hrid : rid < st.routes.length)
+    (hag : AgFmt p.fmt c) (hs : ∀ f, memoFmt c = some f → p.fmt = some (.fmt f)) :
+    StOk env (validateRequest env st c rid rc).st ∧
+    (validateRequest env st c rid rc).st.routes.length = st.routes.length ∧
+    ((validateRequest env st c rid rc).effs.any isConsume = true → (validateRequest env st c rid rc).st.bodyLeft = 0) ∧
+    ((validateRequest env st c rid rc).effs.any isConsume = false →
+      (validateRequest env st c rid rc).st.bodyLeft = st.bodyLeft) ∧
+    (∀ x, refBind env p st.bodyLeft rc = some x → res2OfBind (validateRequest env st c rid rc).res = x) ∧
+    (refBind env p st.bodyLeft rc = none → res2OfBind (validateRequest env st c rid rc).res = .panic) := by
+  obtain ⟨he, hok, hlen, hbody, hfmt, hcons⟩ := vContentType_ref env st c rid hst hct hrid
+  have hrf : (responseFormat env (vContentType env st c rid).c rc.produces).2 = refFmt env p rc := by
+    rw [responseFormat_congr env _ c _ hfmt]; exact responseFormat_ref env c p rc hag hs
+  unfold validateRequest refBind
+  simp only
+  generalize vContentType env st c rid = v at he hok hlen hbody hfmt hcons hrf
+  obtain ⟨vst, vc, verrs⟩ := v
+  simp only at he hok hlen hbody hfmt hcons hrf ⊢
+  subst he
+  by_cases h1 : (refCTErrs env).isEmpty = true
+  · simp only [h1, Bool.not_true, Bool.false_eq_true, if_false]
+    unfold vResponseFormat
+    rw [hrf]
+    by_cases h2 : ((refFmt env p rc).isEmpty && !rc.produces.isEmpty) = true
+    · simp only [h2, if_true]
+      refine ⟨hok, hlen, by simp, fun _ => hbody, fun x hx => ?_, fun hx => by simp at hx⟩
+      simp at hx; simp [res2OfBind, ← hx]
+    · simp only [h2, Bool.false_eq_true, if_false]
+      have h2' : ([] : List Nat).isEmpty = true := rfl
+      simp only [h2', Bool.not_true, Bool.false_eq_true, if_false]
+      unfold vParameters
+      by_cases h3 : (env.bodyParam && env.hasBody) = true
+      · simp only [h3, if_true, Bool.true_and]
+        have hb : env.hasBody = true := by simp at h3; exact h3.2
+        rw [hcons (List.isEmpty_iff.mp h1) hb]
+        cases hk : refConsumer env with
+        | none =>
+          simp only [Option.isNone_none, if_true]
+          exact ⟨hok, hlen, by simp, fun _ => hbody, fun x hx => by simp at hx, fun _ => rfl⟩
+        | some k =>
+          simp only [Option.isNone_some, Bool.false_eq_true, if_false]
+          refine ⟨fun i => hok i, hlen, fun _ => trivial, by simp [isConsume], fun x hx => ?_, fun hx => by simp at hx⟩
+          simp at hx; simp [res2OfBind, ← hx, hbody]
+      · simp only [h3, Bool.false_eq_true, if_false, Bool.false_and]
+        refine ⟨hok, hlen, by simp, fun _ => hbody, fun x hx => ?_, fun hx => by simp at hx⟩
+        simp at hx; simp [res2OfBind, ← hx, hbody]
+  · simp only [h1, Bool.not_false, if_true]
+    refine ⟨hok, hlen, by simp, fun _ => hbody, fun x hx => ?_, fun hx => by simp at hx⟩
+    simp at hx; simp [res2OfBind, ← hx]
+
+theorem bindAndValidate_miss (env : Env) (st : State) (c : Ctx) (rid : Nat) (rc : RouteCfg) (hm : memoBound c = none) :
+    (bindAndValidate env st c (some (rid, rc))).st = (validateRequest env st c rid rc).st ∧
+    (bindAndValidate env st c (some (rid, rc))).res = (validateRequest env st c rid rc).res ∧
+    (bindAndValidate env st c (some (rid, rc))).effs = (validateRequest env st c rid rc).effs := by
+  unfold bindAndValidate
+  simp only [hm]
+  cases hv : validateRequest env st c rid rc with
+  | mk st' res effs => cases res <;> exact ⟨rfl, rfl, rfl⟩
+
+/-! ### one operation: the state stays valid, the results are the reference's -/
+
+theorem routeAlone_model (env : Env) (st : State) (c : Ctx) (p : Promise) (hs : Sound env st.routes.length p c) :
+    routeAlone env (res1Of (routeInfo env st c).route) = true := by
+  have h := (routeInfo_route env st c p hs).1
+  unfold routeAlone
+  cases hr : (routeInfo env st c).route with
+  | none => rw [hr] at h; simp at h; simp [← h, res1Of]
+  | some x => obtain ⟨i, rc⟩ := x; rw [hr] at h; simp at h; simp [← h, res1Of]
+
+theorem princ_nil_of_no_promise {env : Env} {n : Nat} {p : Promise} {c : Ctx} (hs : Sound env n p c)
+    (hp : p.auth = none) : value c kPrinc = .nil := by
+  rcases hs.princ with h | ⟨u, _, h⟩
+  · exact h
+  · rw [hp] at h; cases h
+
+theorem leftAfter_obs (env : Env) (st : State) (c : Ctx) (op : Op) (left : Nat) :
+    leftAfter left (stepCore env st c op).obs = bif (stepCore env st c op).effs.any isConsume then 0 else left := rfl
+
+theorem any_consume_lookup_append (l1 l2 : List Eff) (h : l1.all isLookup = true) :
+    (l1 ++ l2).any isConsume = l2.any isConsume := by
+  rw [List.any_append, any_consume_of_filter _ (filter_consume_of_lookup _ h), Bool.false_or]
+
+theorem stOk_setAuthn (env : Env) (st : State) (rid : Nat) (a : Option AuthAlt) (h : StOk env st) :
+    StOk env (setAuthn st rid a) := by
+  intro i
+  have : ((setAuthn st rid a).routes[i]?).bind (fun o : RouteObj => o.consumer) =
+      (st.routes[i]?).bind (fun o : RouteObj => o.consumer) := by
+    simp only [setAuthn, List.getElem?_modify]
+    cases st.routes[i]? with
+    | none => rfl
+    | some o => by_cases hi : rid = i <;> simp [hi]
+  rw [this]; exact h i
+
+theorem authStore_st (st : State) (c : Ctx) (a : RasOut) (effs : List Eff) : (authStore st c a effs).st = st := by
+  unfold authStore; split <;> rfl
+
+theorem authorize_state (env : Env) (st : State) (c : Ctx) (route : Option (Nat × RouteCfg)) (h : StOk env st) :
+    StOk env (authorize env st c route).st ∧ (authorize env st c route).st.routes.length = st.routes.length ∧
+    (authorize env st c route).st.bodyLeft = st.bodyLeft := by
+  unfold authorize
+  split
+  · exact ⟨h, rfl, rfl⟩
+  · split
+    · exact ⟨h, rfl, rfl⟩
+    · split
+      · exact ⟨h, rfl, rfl⟩
+      · unfold authorizeMiss
+        simp only
+        have hs := stOk_setAuthn env st ‹Nat› (rasAuth env (‹RouteCfg›).alts none none ((st.routes[‹Nat›]?).bind (·.authn)) false []).cur h
+        have hl : ∀ a, (setAuthn st ‹Nat› a).routes.length = st.routes.length := by
+          intro a; simp [setAuthn, List.length_modify]
+        split
+        · exact ⟨hs, hl _, rfl⟩
+        · split
+          · split
+            · exact ⟨hs, hl _, rfl⟩
+            · rw [authStore_st]; exact ⟨hs, hl _, rfl⟩
+          · rw [authStore_st]; exact ⟨hs, hl _, rfl⟩
+
+/-- **state invariant step**: the shared state stays valid, the route objects only get more, and the
+model's unread body is what the Spec computes from the trace -/
+theorem stepCore_state (env : Env) (st : State) (c : Ctx) (op : Op) (p : Promise) (hst : StOk env st)
+    (hag : Agree p c) (hs : Sound env st.routes.length p c) :
+    StOk env (stepCore env st c op).st ∧ st.routes.length ≤ (stepCore env st c op).st.routes.length ∧
+    (stepCore env st c op).st.bodyLeft = leftAfter st.bodyLeft (stepCore env st c op).obs := by
+  rw [leftAfter_obs]
+  obtain ⟨r1, r2, r3⟩ := routeInfo_state env st c hst
+  have hlk := routeInfo_effs env st c
+  have hnc : (routeInfo env st c).effs.any isConsume = false :=
+    any_consume_of_filter _ (filter_consume_of_lookup _ hlk)
+  cases op with
+  | routeInfo => simp only [stepCore, hnc, cond_false]; exact ⟨r1, r2, r3⟩
+  | contentType => simp [stepCore, hst]
+  | responseFormat o => simp [stepCore, hst]
+  | resetAuth => simp [stepCore, hst]
+  | authorize =>
+    simp only [stepCore]
+    obtain ⟨a1, a2, a3⟩ := authorize_state env (routeInfo env st c).st ((routeInfo env st c).ret.held c)
+      (routeInfo env st c).route r1
+    rw [any_consume_lookup_append _ _ hlk,
+      any_consume_of_filter _ (filter_consume_of_auth _ (authorize_effs env _ _ _))]
+    exact ⟨a1, by omega, by rw [a3, r3]; rfl⟩
+  | bindAndValidate =>
+    simp only [stepCore]
+    cases hrt : (routeInfo env st c).route with
+    | none => simp only [hnc, cond_false]; exact ⟨r1, r2, r3⟩
+    | some rt =>
+      obtain ⟨rid, rc⟩ := rt
+      simp only
+      rw [any_consume_lookup_append _ _ hlk]
+      have hs1 := sound_route_held env st c p hs
+      have hag1 := agree_afterRoute env st c p hag
+      rcases bindAndValidate_cases env (routeInfo env st c).st ((routeInfo env st c).ret.held c) (some (rid, rc)) with
+        ⟨b, hm, he⟩ | ⟨hm, _⟩ | ⟨hm, _⟩
+      · rw [he]; simp only [List.any_nil, cond_false]; exact ⟨r1, r2, r3⟩
+      all_goals
+        obtain ⟨e1, _, e3⟩ := bindAndValidate_miss env (routeInfo env st c).st ((routeInfo env st c).ret.held c) rid rc hm
+        rw [e1, e3]
+        have hrid := (routeInfo_route env st c p hs).2 rid rc hrt
+        obtain ⟨v1, v2, v3, v4, _⟩ := validateRequest_ref env (routeInfo env st c).st ((routeInfo env st c).ret.held c) rid rc
+          (afterRoute p (res1Of (routeInfo env st c).route)) r1 hs1.ct hrid hag1.fmt
+          (by rw [afterRoute_fmt]; exact hs1.fmt)
+        refine ⟨v1, by omega, ?_⟩
+        cases hany : (validateRequest env (routeInfo env st c).st ((routeInfo env st c).ret.held c) rid rc).effs.any isConsume with
+        | true => simp [v3 hany]
+        | false => simp [v4 hany, r3]
+
+theorem scopes_view (st : State) (c : Ctx) (sc : List Bytes) (h : value c kScopes = .scopes sc) :
+    (viewOf st c).scopes = sc := by simp [viewOf, h]
+
+/-- **the model's results are the reference's**: whatever of an operation's results is not covered
+by a promise of the value it is applied to is what the stage yields on the request as received -/
+theorem derived_model (env : Env) (st : State) (c : Ctx) (op : Op) (p : Promise) (hst : StOk env st)
+    (hag : Agree p c) (hs : Sound env st.routes.length p c) :
+    derivedAlone env p st.bodyLeft op (stepCore env st c op).obs = true := by
+  unfold derivedAlone
+  rw [Bool.and_eq_true]
+  have hra := routeAlone_model env st c p hs
+  obtain ⟨r1, r2, r3⟩ := routeInfo_state env st c hst
+  have hs1 := sound_route_held env st c p hs
+  have hag1 := agree_afterRoute env st c p hag
+  obtain ⟨hlk, hrid⟩ := routeInfo_route env st c p hs
+  constructor
+  · cases op <;> simp [stepCore, StepOut.obs, hasRoutePart, hra]
+    split <;> simp [hra]
+  · cases hpr : promised p op with
+    | some r => rfl
+    | none =>
+      simp only [Option.isSome_none, Bool.false_or, Bool.and_eq_true]
+      cases op with
+      | routeInfo => simp [fresh, stepCore, StepOut.obs, scopesAlone]
+      | resetAuth => simp [fresh, stepCore, StepOut.obs, scopesAlone]
+      | contentType => simp [fresh, stepCore, StepOut.obs, scopesAlone, (contentType_ref env c hs.ct).1]
+      | responseFormat o =>
+        have hm : memoFmt c = none := by
+          cases hm : memoFmt c with
+          | none => rfl
+          | some f => have := hs.fmt f hm; simp [promised] at hpr; rw [hpr] at this; cases this
+        rcases responseFormat_cases env c o with ⟨f, hf, _⟩ | ⟨_, _, he⟩ | ⟨_, _, he⟩
+        · rw [hm] at hf; cases hf
+        · simp [fresh, stepCore, StepOut.obs, scopesAlone, he]
+        · simp [fresh, stepCore, StepOut.obs, scopesAlone, he]
+      | authorize =>
+        have hpa : p.auth = none := by simpa [promised] using hpr
+        have hnil : value ((routeInfo env st c).ret.held c) kPrinc = .nil := by
+          rw [held_route_memoPrincV]; exact princ_nil_of_no_promise hs hpa
+        have hmp := memoPrinc_nil _ hnil
+        simp only [fresh, stepCore, StepOut.obs, scopesAlone]
+        cases hrt : (routeInfo env st c).route with
+        | none =>
+          rw [hrt] at hlk; simp at hlk
+          simp [← hlk, authorize, res2OfAuth]
+        | some rt =>
+          obtain ⟨rid, rc⟩ := rt
+          rw [hrt] at hlk; simp at hlk
+          rw [← hlk]
+          cases hal : rc.alts.isEmpty with
+          | true => simp [authorize, hal, res2OfAuth, authenticated]
+          | false =>
+            rw [authorize_miss_eq env _ _ rid rc hal hmp]
+            obtain ⟨a1, a2⟩ := authorizeMiss_ref env (routeInfo env st c).st ((routeInfo env st c).ret.held c) rid rc
+            have hne : rc.alts ≠ [] := by intro h; simp [h] at hal
+            refine ⟨by simp [a1, hne], ?_⟩
+            cases hau : authenticated (res2OfAuth (authorizeMiss env (routeInfo env st c).st
+                ((routeInfo env st c).ret.held c) rid rc).res) with
+            | false => rfl
+            | true => simp [scopes_view _ _ _ (a2 hau)]
+      | bindAndValidate =>
+        have hpb : p.bound = none := by simpa [promised] using hpr
+        have hmb : memoBound ((routeInfo env st c).ret.held c) = none := by
+          rw [held_route_memoBound]
+          cases hm : memoBound c with
+          | none => rfl
+          | some b => have := hs.bound b hm; rw [hpb] at this; cases this
+        simp only [fresh, stepCore, scopesAlone]
+        cases hrt : (routeInfo env st c).route with
+        | none =>
+          rw [hrt] at hlk; simp at hlk
+          simp [← hlk, StepOut.obs]
+        | some rt =>
+          obtain ⟨rid, rc⟩ := rt
+          rw [hrt] at hlk; simp at hlk
+          rw [← hlk]
+          simp only [StepOut.obs, and_true]
+          obtain ⟨_, e2, _⟩ := bindAndValidate_miss env (routeInfo env st c).st ((routeInfo env st c).ret.held c) rid rc hmb
+          obtain ⟨_, _, _, _, v5, _⟩ := validateRequest_ref env (routeInfo env st c).st ((routeInfo env st c).ret.held c) rid rc
+            p r1 hs1.ct (hrid rid rc hrt) (by have := hag1.fmt; rwa [afterRoute_fmt] at this) hs1.fmt
+          rw [r3] at v5
+          cases hf : refBind env p st.bodyLeft rc with
+          | none => rfl
+          | some x => simp [e2, v5 x hf]
+
+/-- two pushes under the principal and scopes keys -/
+theorem Sound.push_auth {env : Env} {n : Nat} {p q : Promise} {c : Ctx} (v w : Val) (h : Sound env n p c)
+    (hf : q.fmt = p.fmt) (hb : q.bound = p.bound)
+    (hp : v = .nil ∨ ∃ u, v = .princ u ∧ q.auth = some (.princ u)) :
+    Sound env n q ((kScopes, w) :: (kPrinc, v) :: c) := by
+  constructor
+  · intro i rc hm
+    rw [memoRoute_push _ _ ne_Scopes_Route, memoRoute_push _ _ ne_Princ_Route] at hm; exact h.route i rc hm
+  · intro x hm; rw [memoCT_push _ _ ne_Scopes_CT, memoCT_push _ _ ne_Princ_CT] at hm; exact h.ct x hm
+  · intro f hm; rw [memoFmt_push _ _ ne_Scopes_Fmt, memoFmt_push _ _ ne_Princ_Fmt] at hm; rw [hf]; exact h.fmt f hm
+  · rw [value_push_ne _ _ ne_Scopes_Princ, value_push_eq]; exact hp
+  · intro b hm; rw [memoBound_push _ _ ne_Scopes_Bound, memoBound_push _ _ ne_Princ_Bound] at hm
+    rw [hb]; exact h.bound b hm
+
+/-- **invariant step for `Sound`** -/
+theorem sound_after (env : Env) (st : State) (c : Ctx) (op : Op) (p : Promise) (hst : StOk env st)
+    (hag : Agree p c) (hs : Sound env st.routes.length p c) :
+    Sound env (stepCore env st c op).st.routes.length (after p op (stepCore env st c op).obs)
+      (stepCore env st c op).held := by
+  obtain ⟨r1, r2, r3⟩ := routeInfo_state env st c hst
+  have hs1 := sound_route_held env st c p hs
+  cases op with
+  | routeInfo =>
+    simp only [stepCore]
+    exact hs1.congr (by rw [after_fmt]) (by rw [after_auth]) (by rw [after_bound])
+  | contentType =>
+    simp only [stepCore]
+    have hres := (contentType_ref env c hs.ct).1
+    refine Sound.congr (p := p) ?_ (by rw [after_fmt]) (by rw [after_auth]) (by rw [after_bound])
+    rcases contentType_cases env c with ⟨x, _, he⟩ | ⟨_, x, he⟩ | ⟨_, e, he⟩
+    · rw [he]; exact hs
+    · rw [he] at hres ⊢
+      simp only [Ret.held]
+      constructor
+      · intro i rc hm; rw [memoRoute_push _ _ ne_CT_Route] at hm; exact hs.route i rc hm
+      · intro y hm; rw [memoCT_set] at hm; simp at hm; rw [← hm]; exact hres.symm
+      · intro f hm; rw [memoFmt_push _ _ ne_CT_Fmt] at hm; exact hs.fmt f hm
+      · rw [value_push_ne _ _ ne_CT_Princ]; exact hs.princ
+      · intro b hm; rw [memoBound_push _ _ ne_CT_Bound] at hm; exact hs.bound b hm
+    · rw [he]; exact hs
+  | responseFormat o =>
+    simp only [stepCore, StepOut.obs]
+    rcases responseFormat_cases env c o with ⟨f, hf, he⟩ | ⟨hm, hz, he⟩ | ⟨hm, hz, he⟩
+    · rw [he]
+      simp only [Ret.held]
+      refine ⟨hs.route, hs.ct, ?_, by rw [after_auth]; exact hs.princ, by rw [after_bound]; exact hs.bound⟩
+      intro f' hf'
+      rw [hf] at hf'; simp at hf'; subst hf'
+      rw [after_fmt]
+      simp only [memoisable2]
+      by_cases hz : (!f.isEmpty) = true
+      · simp [hz]
+      · simp only [hz, Bool.false_eq_true, if_false]; exact hs.fmt f hf
+    · rw [he]
+      simp only [Ret.held]
+      refine hs.congr ?_ (by rw [after_auth]) (by rw [after_bound])
+      rw [after_fmt]; simp [memoisable2, hz]
+    · rw [he]
+      simp only [Ret.held]
+      constructor
+      · intro i rc hx; rw [memoRoute_push _ _ ne_Fmt_Route] at hx; exact hs.route i rc hx
+      · intro y hx; rw [memoCT_push _ _ ne_Fmt_CT] at hx; exact hs.ct y hx
+      · intro f hx; rw [memoFmt_set] at hx; simp at hx
+        subst hx
+        rw [after_fmt]; simp [memoisable2, hz]
+      · rw [value_push_ne _ _ ne_Fmt_Princ, after_auth]; exact hs.princ
+      · intro b hx; rw [memoBound_push _ _ ne_Fmt_Bound] at hx; rw [after_bound]; exact hs.bound b hx
+  | resetAuth =>
+    simp only [stepCore, resetAuth]
+    exact hs.push_auth _ _ (by rw [after_fmt]) (by rw [after_bound]) (Or.inl rfl)
+  | authorize =>
+    simp only [stepCore, StepOut.obs]
+    obtain ⟨_, a2, _⟩ := authorize_state env (routeInfo env st c).st ((routeInfo env st c).ret.held c)
+      (routeInfo env st c).route r1
+    rw [a2]
+    rcases authorize_cases env (routeInfo env st c).st ((routeInfo env st c).ret.held c) (routeInfo env st c).route with
+      ⟨h1, h2⟩ | ⟨v, i, rc, _, _, hm, he⟩ | ⟨sc, pr, i, rc, _, _, _, h1, h2⟩
+    · rw [h1]
+      rcases h2 with h2 | h2 | ⟨code, h2⟩ <;> rw [h2] <;> simp only [Ret.held] <;>
+        refine hs1.congr (by rw [after_fmt]) ?_ (by rw [after_bound]) <;>
+        rw [after_auth] <;> simp [res2OfAuth, memoisable2]
+    · rw [he]
+      simp only [Ret.held]
+      obtain ⟨hv, hn⟩ := value_of_memoPrinc _ v hm
+      refine ⟨hs1.route, hs1.ct, by rw [after_fmt]; exact hs1.fmt, ?_, by rw [after_bound]; exact hs1.bound⟩
+      rcases hs1.princ with hnil | ⟨u, hu, _⟩
+      · rw [hnil] at hv; exact absurd hv.symm hn
+      · right
+        refine ⟨u, hu, ?_⟩
+        rw [hu] at hv; subst hv
+        rw [after_auth]; simp [res2OfAuth, memoisable2]
+    · rw [h1, h2]
+      simp only [Ret.held]
+      refine hs1.push_auth _ _ (by rw [after_fmt]) (by rw [after_bound]) ?_
+      cases pr with
+      | none => exact Or.inl rfl
+      | some u => right; exact ⟨u, rfl, by rw [after_auth]; simp [princVal, res2OfAuth, memoisable2]⟩
+  | bindAndValidate =>
+    simp only [stepCore]
+    cases hrt : (routeInfo env st c).route with
+    | none =>
+      simp only
+      exact hs1.congr (by rw [after_fmt]) (by rw [after_auth]) (by rw [after_bound]; simp [StepOut.obs, memoisable2])
+    | some rt =>
+      obtain ⟨rid, rc⟩ := rt
+      simp only [StepOut.obs]
+      have hag1 := agree_afterRoute env st c p hag
+      have hrid := (routeInfo_route env st c p hs).2 rid rc hrt
+      rcases bindAndValidate_cases env (routeInfo env st c).st ((routeInfo env st c).ret.held c) (some (rid, rc)) with
+        ⟨b, hm, he⟩ | ⟨hm, h1, h2, _⟩ | ⟨hm, r, h1, h2⟩
+      · rw [he]
+        simp only [Ret.held]
+        refine ⟨hs1.route, hs1.ct, by rw [after_fmt]; exact hs1.fmt, by rw [after_auth]; exact hs1.princ, ?_⟩
+        intro _ _; rw [after_bound]; simp [res2OfBind, memoisable2]
+      all_goals
+        obtain ⟨e1, _, _⟩ := bindAndValidate_miss env (routeInfo env st c).st ((routeInfo env st c).ret.held c) rid rc hm
+        obtain ⟨_, v2, _⟩ := validateRequest_ref env (routeInfo env st c).st ((routeInfo env st c).ret.held c) rid rc
+          (afterRoute p (res1Of (routeInfo env st c).route)) r1 hs1.ct hrid hag1.fmt
+          (by rw [afterRoute_fmt]; exact hs1.fmt)
+        rw [e1, v2, h1, h2]
+        simp only [Ret.held]
+      · exact hs1.congr (by rw [after_fmt]) (by rw [after_auth]) (by rw [after_bound]; simp [res2OfBind, memoisable2])
+      · constructor
+        · intro i rc' hx; rw [memoRoute_push _ _ ne_Bound_Route] at hx; exact hs1.route i rc' hx
+        · intro y hx; rw [memoCT_push _ _ ne_Bound_CT] at hx; exact hs1.ct y hx
+        · intro f hx; rw [memoFmt_push _ _ ne_Bound_Fmt] at hx; rw [after_fmt]; exact hs1.fmt f hx
+        · rw [value_push_ne _ _ ne_Bound_Princ, after_auth]; exact hs1.princ
+        · intro _ _; rw [after_bound]; simp [res2OfBind, memoisable2]
+
+/-! ### programs: the invariant over all request values produced so far -/
+
+structure Inv (env : Env) (st : State) (left : Nat) (vals : List Ctx) (ps : List Promise) : Prop where
+  len : vals.length = ps.length
+  body : st.bodyLeft = left
+  stok : StOk env st
+  agree : ∀ k, Agree (ps.getD k {}) (vals.getD k [])
+  sound : ∀ k, Sound env st.routes.length (ps.getD k {}) (vals.getD k [])
+
+theorem inv_init (env : Env) (b : Nat) : Inv env ⟨[], b⟩ b [[]] [{}] := by
+  refine ⟨rfl, rfl, stOk_init env b, ?_, ?_⟩
+  · intro k; cases k with
+    | zero => exact agree_init
+    | succ k => simpa [List.getD] using agree_init
+  · intro k; cases k with
+    | zero => exact sound_init env _
+    | succ k => simpa [List.getD] using sound_init env _
+
+theorem inv_step (env : Env) (st : State) (left : Nat) (vals : List Ctx) (ps : List Promise) (i : Instr)
+    (h : Inv env st left vals ps) :
+    Inv env (stepOp env st (vals.getD (srcIdx vals.length i.back) []) i.op).1
+      (leftAfter left (stepOp env st (vals.getD (srcIdx vals.length i.back) []) i.op).2.2)
+      (vals ++ [(stepOp env st (vals.getD (srcIdx vals.length i.back) []) i.op).2.1])
+      (ps ++ [after (ps.getD (srcIdx ps.length i.back) {}) i.op
+        (stepOp env st (vals.getD (srcIdx vals.length i.back) []) i.op).2.2]) := by
+  have hlen := h.len
+  rw [← hlen]
+  have hag := h.agree (srcIdx vals.length i.back)
+  have hs := h.sound (srcIdx vals.length i.back)
+  obtain ⟨s1, s2, s3⟩ := stepCore_state env st _ i.op _ h.stok hag hs
+  refine ⟨by simp [hlen], by rw [← h.body]; exact s3, s1, ?_, ?_⟩
+  · intro k
+    rcases Nat.lt_trichotomy k vals.length with hlt | heq | hgt
+    · rw [getD_append_lt _ _ _ _ (hlen ▸ hlt), getD_append_lt _ _ _ _ hlt]; exact h.agree k
+    · subst heq
+      rw [getD_append_len]
+      rw [show (ps ++ [after (ps.getD (srcIdx vals.length i.back) {}) i.op (stepOp env st (vals.getD (srcIdx vals.length i.back) []) i.op).2.2]).getD vals.length {} =
+          after (ps.getD (srcIdx vals.length i.back) {}) i.op (stepOp env st (vals.getD (srcIdx vals.length i.back) []) i.op).2.2 from by
+        rw [hlen]; exact getD_append_len _ _ _]
+      exact agree_after env st _ i.op _ hag
+    · rw [getD_append_gt _ _ _ _ (hlen ▸ hgt), getD_append_gt _ _ _ _ hgt]; exact agree_init
+  · intro k
+    rcases Nat.lt_trichotomy k vals.length with hlt | heq | hgt
+    · rw [getD_append_lt _ _ _ _ (hlen ▸ hlt), getD_append_lt _ _ _ _ hlt]; exact (h.sound k).mono s2
+    · subst heq
+      rw [getD_append_len]
+      rw [show (ps ++ [after (ps.getD (srcIdx vals.length i.back) {}) i.op (stepOp env st (vals.getD (srcIdx vals.length i.back) []) i.op).2.2]).getD vals.length {} =
+          after (ps.getD (srcIdx vals.length i.back) {}) i.op (stepOp env st (vals.getD (srcIdx vals.length i.back) []) i.op).2.2 from by
+        rw [hlen]; exact getD_append_len _ _ _]
+      exact sound_after env st _ i.op _ h.stok hag hs
+    · rw [getD_append_gt _ _ _ _ (hlen ▸ hgt), getD_append_gt _ _ _ _ hgt]; exact sound_init env _
+
+theorem specGo_runProg (env : Env) : ∀ (prog : List Instr) (st : State) (left : Nat) (vals : List Ctx) (ps : List Promise),
+    Inv env st left vals ps → specGo env prog (runProg env prog st vals) ps left = true := by
+  intro prog
+  induction prog with
+  | nil => intro st left vals ps _; rfl
+  | cons i is ih =>
+    intro st left vals ps h
+    simp only [runProg, specGo, Bool.and_eq_true]
+    have hstep := inv_step env st left vals ps i h
+    rw [← h.len] at hstep ⊢
+    refine ⟨⟨keeps_model env st _ i.op _ (h.agree _), ?_⟩, ih _ _ _ _ hstep⟩
+    have := derived_model env st _ i.op _ h.stok (h.agree (srcIdx vals.length i.back)) (h.sound _)
+    rw [h.body] at this
+    exact this
+
+/-- the model's state and values together with the Spec's bookkeeping (promises, unread body) -/
+def endAll (env : Env) : List Instr → State → List Ctx → List Promise → Nat → State × List Ctx × List Promise × Nat
+  | [], st, vals, ps, left => (st, vals, ps, left)
+  | i :: is, st, vals, ps, left =>
+    endAll env is (stepOp env st (vals.getD (srcIdx vals.length i.back) []) i.op).1
+      (vals ++ [(stepOp env st (vals.getD (srcIdx vals.length i.back) []) i.op).2.1])
+      (ps ++ [after (ps.getD (srcIdx ps.length i.back) {}) i.op
+        (stepOp env st (vals.getD (srcIdx vals.length i.back) []) i.op).2.2])
+      (leftAfter left (stepOp env st (vals.getD (srcIdx vals.length i.back) []) i.op).2.2)
+
+theorem endAll_endProg (env : Env) : ∀ (prog : List Instr) (st : State) (vals : List Ctx) (ps : List Promise) (left : Nat),
+    (endAll env prog st vals ps left).1 = (endProg env prog st vals).1 ∧
+    (endAll env prog st vals ps left).2.1 = (endProg env prog st vals).2 := by
+  intro prog
+  induction prog with
+  | nil => intro st vals ps left; exact ⟨rfl, rfl⟩
+  | cons i is ih => intro st vals ps left; simp only [endAll, endProg]; exact ih _ _ _ _
+
+theorem inv_end (env : Env) : ∀ (prog : List Instr) (st : State) (left : Nat) (vals : List Ctx) (ps : List Promise),
+    Inv env st left vals ps →
+    Inv env (endAll env prog st vals ps left).1 (endAll env prog st vals ps left).2.2.2
+      (endAll env prog st vals ps left).2.1 (endAll env prog st vals ps left).2.2.1 := by
+  intro prog
+  induction prog with
+  | nil => intro st left vals ps h; exact h
+  | cons i is ih => intro st left vals ps h; simp only [endAll]; exact ih _ _ _ _ (inv_step env st left vals ps i h)
+
+/-- every state and request value reachable from the request as received is valid, and carries
+promises that are memoised in it and account for everything memoised in it -/
+theorem reach (env : Env) (b : Nat) (prog : List Instr) (k : Nat) :
+    ∃ p, StOk env (endProg env prog ⟨[], b⟩ [[]]).1 ∧
+      Agree p ((endProg env prog ⟨[], b⟩ [[]]).2.getD k []) ∧
+      Sound env (endProg env prog ⟨[], b⟩ [[]]).1.routes.length p ((endProg env prog ⟨[], b⟩ [[]]).2.getD k []) := by
+  have h := inv_end env prog _ _ _ _ (inv_init env b)
+  obtain ⟨e1, e2⟩ := endAll_endProg env prog ⟨[], b⟩ [[]] [{}] b
+  rw [← e1, ← e2]
+  exact ⟨_, h.stok, h.agree k, h.sound k⟩
+
+/-! ### the consequences in terms of contexts (no promises in the statements) -/
+
+theorem refFmt_congr (env : Env) (p q : Promise) (rc : RouteCfg) (h : p.fmt = q.fmt) :
+    refFmt env p rc = refFmt env q rc := by unfold refFmt; rw [h]
+
+theorem refBind_congr (env : Env) (p q : Promise) (left : Nat) (rc : RouteCfg) (h : p.fmt = q.fmt) :
+    refBind env p left rc = refBind env q left rc := by
+  unfold refBind; rw [refFmt_congr env p q rc h]
+
+theorem fresh_congr (env : Env) (p q : Promise) (left : Nat) (op : Op) (h : p.fmt = q.fmt) :
+    fresh env p left op = fresh env q left op := by
+  cases op <;> simp only [fresh]
+  cases env.lookup with
+  | none => rfl
+  | some rc => exact refBind_congr env p q left rc h
+
+/-- the format promise of a valid value is exactly the format memoised in it -/
+theorem fmt_promise_eq {env : Env} {n : Nat} {p : Promise} {c : Ctx} (hag : Agree p c) (hs : Sound env n p c) :
+    p.fmt = (memoFmt c).map Res2.fmt := by
+  cases hm : memoFmt c with
+  | some f => simp [hs.fmt f hm]
+  | none => simp [hag.fmt.memo_none hm]
+
+/-- "the stage is evaluated": the value shows no result of it -/
+def notMemoised (c : Ctx) : Op → Prop
+  | .contentType => memoCT c = none
+  | .responseFormat _ => memoFmt c = none
+  | .authorize => value c kPrinc = .nil
+  | .bindAndValidate => memoBound c = none
+  | _ => True
+
+theorem promised_none_of_notMemoised {p : Promise} {c : Ctx} (hag : Agree p c) (op : Op) (h : notMemoised c op) :
+    promised p op = none := by
+  cases op with
+  | routeInfo => rfl
+  | resetAuth => rfl
+  | contentType => exact hag.ct.memo_none h
+  | responseFormat o => exact hag.fmt.memo_none h
+  | bindAndValidate => exact hag.bound.memo_none h
+  | authorize => exact hag.auth.memo_none (memoPrinc_nil c h)
+
+/-- an evaluated stage of a valid value in a valid state yields the reference's result -/
+theorem evaluated_eq_fresh (env : Env) (st : State) (c : Ctx) (op : Op) (p : Promise) (hst : StOk env st)
+    (hag : Agree p c) (hs : Sound env st.routes.length p c) (hn : notMemoised c op) (r : Res2)
+    (hf : fresh env { fmt := (memoFmt c).map Res2.fmt } st.bodyLeft op = some r) :
+    (stepCore env st c op).res2 = r := by
+  have hd := derived_model env st c op p hst hag hs
+  unfold derivedAlone at hd
+  rw [promised_none_of_notMemoised hag op hn] at hd
+  rw [fresh_congr env _ p _ _ (fmt_promise_eq hag hs).symm] at hf
+  rw [hf] at hd
+  simp only [Option.isSome_none, Bool.false_or, Bool.and_eq_true, beq_iff_eq] at hd
+  exact hd.2.1
+
+/-- …and, for `Authorize`, shows the reference's scopes -/
+theorem evaluated_scopes (env : Env) (st : State) (c : Ctx) (p : Promise) (rc : RouteCfg) (hst : StOk env st)
+    (hag : Agree p c) (hs : Sound env st.routes.length p c) (hn : value c kPrinc = .nil) (hl : env.lookup = some rc)
+    (ha : authenticated (stepCore env st c .authorize).res2 = true) :
+    (stepCore env st c .authorize).obs.view.scopes = (refAuthorize env rc).2 := by
+  have hd := derived_model env st c .authorize p hst hag hs
+  unfold derivedAlone at hd
+  rw [promised_none_of_notMemoised hag .authorize hn] at hd
+  simp only [Option.isSome_none, Bool.false_or, Bool.and_eq_true] at hd
+  have := hd.2.2
+  simp only [scopesAlone, hl, StepOut.obs, ha, Bool.not_true, Bool.false_or, beq_iff_eq] at this
+  exact this
+
+/-- binding, silent case included: an evaluated binding is the reference's, and where the reference
+is silent (no consumer for a body that has to be read) the model panics -/
+theorem bind_model (env : Env) (st : State) (c : Ctx) (p : Promise) (hst : StOk env st)
+    (hag : Agree p c) (hs : Sound env st.routes.length p c) (hn : memoBound c = none) :
+    (stepCore env st c .bindAndValidate).res2 =
+      match env.lookup with
+      | none => .skipped
+      | some rc => (refBind env p st.bodyLeft rc).getD .panic := by
+  obtain ⟨r1, r2, r3⟩ := routeInfo_state env st c hst
+  have hs1 := sound_route_held env st c p hs
+  have hag1 := agree_afterRoute env st c p hag
+  obtain ⟨hlk, hrid⟩ := routeInfo_route env st c p hs
+  have hmb : memoBound ((routeInfo env st c).ret.held c) = none := by rw [held_route_memoBound]; exact hn
+  simp only [stepCore]
+  cases hrt : (routeInfo env st c).route with
+  | none => rw [hrt] at hlk; simp at hlk; simp [← hlk]
+  | some rt =>
+    obtain ⟨rid, rc⟩ := rt
+    rw [hrt] at hlk; simp at hlk
+    rw [← hlk]
+    simp only
+    obtain ⟨_, e2, _⟩ := bindAndValidate_miss env (routeInfo env st c).st ((routeInfo env st c).ret.held c) rid rc hmb
+    obtain ⟨_, _, _, _, v5, v6⟩ := validateRequest_ref env (routeInfo env st c).st ((routeInfo env st c).ret.held c) rid rc
+      p r1 hs1.ct (hrid rid rc hrt) (by have := hag1.fmt; rwa [afterRoute_fmt] at this) hs1.fmt
+    rw [r3] at v5 v6
+    rw [e2]
+    cases hf : refBind env p st.bodyLeft rc with
+    | none => simpa using v6 hf
+    | some x => simpa using v5 x hf
+
+
+theorem leftAfter_cases (left : Nat) (o : Obs) : leftAfter left o = left ∨ leftAfter left o = 0 := by
+  unfold leftAfter; cases o.effs.any isConsume <;> simp
+
+theorem endAll_left (env : Env) : ∀ (prog : List Instr) (st : State) (vals : List Ctx) (ps : List Promise) (left : Nat),
+    (endAll env prog st vals ps left).2.2.2 = left ∨ (endAll env prog st vals ps left).2.2.2 = 0 := by
+  intro prog
+  induction prog with
+  | nil => intro st vals ps left; exact Or.inl rfl
+  | cons i is ih =>
+    intro st vals ps left
+    simp only [endAll]
+    rcases ih (stepOp env st (vals.getD (srcIdx vals.length i.back) []) i.op).1
+      (vals ++ [(stepOp env st (vals.getD (srcIdx vals.length i.back) []) i.op).2.1])
+      (ps ++ [after (ps.getD (srcIdx ps.length i.back) {}) i.op
+        (stepOp env st (vals.getD (srcIdx vals.length i.back) []) i.op).2.2])
+      (leftAfter left (stepOp env st (vals.getD (srcIdx vals.length i.back) []) i.op).2.2) with h | h
+    · rcases leftAfter_cases left (stepOp env st (vals.getD (srcIdx vals.length i.back) []) i.op).2.2 with h' | h'
+      · exact Or.inl (h.trans h')
+      · exact Or.inr (h.trans h')
+    · exact Or.inr h
+
+theorem reach_body (env : Env) (b : Nat) (prog : List Instr) :
+    (endProg env prog ⟨[], b⟩ [[]]).1.bodyLeft = b ∨ (endProg env prog ⟨[], b⟩ [[]]).1.bodyLeft = 0 := by
+  have h := inv_end env prog _ _ _ _ (inv_init env b)
+  obtain ⟨e1, _⟩ := endAll_endProg env prog ⟨[], b⟩ [[]] [{}] b
+  rw [← e1, h.body]
+  exact endAll_left env prog _ _ _ b
 
 end RtVerif.C09
